@@ -406,23 +406,61 @@ def diff_cases(chk, name, cases, impl_out, model_out, monitor=None, max_report=3
         return 1
     for c, a, b in zip(cases, impl_out, model_out):
         chk.count(name, c + "=>" + a)
+        reason = monitor(c, a) if monitor else None
+        if reason and reason.startswith("KNOWN:"):
+            f = chk.match_known(reason[6:])
+            if f is not None:
+                chk.known_hit(f)
+                if "example" not in f:
+                    f["example"] = {"case": c, "impl": a}
+                reason = None
+            else:
+                reason = "unlisted finding " + reason[6:]
         if canon(a) != canon(b):
             chk.cov["disagreements_checked"] += 1
             nbad += 1
             if nbad <= max_report:
-                reason = monitor(c, a) if monitor else None
                 chk.violation("%s: implementation and model disagree%s"
                               % (name, (": " + reason) if reason else ""),
                               {"kind": "correspondence", "obligation": name, "case": c,
                                "impl": a, "model": b, "monitor": reason},
                               found_input=reason is not None)
-        elif monitor:
-            reason = monitor(c, a)
-            if reason:
-                nbad += 1
-                if nbad <= max_report:
-                    chk.violation("%s: trace violates the property: %s" % (name, reason),
-                                  {"kind": "monitor", "obligation": name, "case": c, "impl": a},
-                                  found_input=True)
+        elif reason:
+            nbad += 1
+            if nbad <= max_report:
+                chk.violation("%s: trace violates the property: %s" % (name, reason),
+                              {"kind": "monitor", "obligation": name, "case": c, "impl": a},
+                              found_input=True)
     chk.corr(name, len(cases))
     return nbad
+
+
+def _cli():
+    # python3 lib/vf.py build-deps coq/Extract/Extract_X.v : bring the models it imports up to date
+    if len(sys.argv) == 3 and sys.argv[1] == "build-deps":
+        txt = open(sys.argv[2]).read()
+        mods = []
+        for m in re.finditer(r"From UV Require Import ([^.]*(?:\.[A-Za-z_][\w.]*)*)\.", txt):
+            pass
+        for line in txt.splitlines():
+            mm = re.match(r"\s*From UV Require (?:Import|Export)\s+(.*)\.\s*$", line)
+            if mm:
+                mods += mm.group(1).split()
+        for mod in mods:
+            rel = mod.replace(".", "/") + ".v"
+            ok, log = coq_build(rel)
+            if ok:
+                r = sh(["timeout", "1800", "coqc", "-Q", ".", "UV", rel], cwd=COQ) \
+                    if (not os.path.exists(os.path.join(COQ, rel + "o")) or
+                        os.path.getmtime(os.path.join(COQ, rel + "o")) < os.path.getmtime(os.path.join(COQ, rel))) else None
+                if r is not None and r.returncode != 0:
+                    print(r.stdout[-2000:])
+                    sys.exit(1)
+            else:
+                print(log)
+                sys.exit(1)
+        sys.exit(0)
+
+
+if __name__ == "__main__":
+    _cli()
